@@ -99,13 +99,15 @@ class Run:
             shutil.copy(os.path.join(REPO, "go.sum"), os.path.join(hd, "go.sum"))
         return hd
 
-    def build_harness(self, race=False):
-        key = "drv-race" if race else "drv"
+    def build_harness(self, race=False, name=None):
+        """builds harness/cmd/<name> (default: this property's driver, e.g. cmd/c04)."""
+        name = name or self.prop.lower()
+        key = name + ("-race" if race else "")
         if key in self._bin:
             return self._bin[key]
         hd = self._modfile()
         out = os.path.join(self.scratch, key)
-        cmd = ["go", "build", "-tags", "verif"] + (["-race"] if race else []) + ["-o", out, "./cmd/verifdrv"]
+        cmd = ["go", "build", "-tags", "verif"] + (["-race"] if race else []) + ["-o", out, "./cmd/" + name]
         p = subprocess.run(cmd, cwd=hd, env=GOENV, capture_output=True, text=True)
         if p.returncode != 0:
             raise Inconclusive("harness build failed:\n" + p.stdout + p.stderr)
@@ -124,8 +126,8 @@ class Run:
         self._bin[key] = out
         return out
 
-    def drv(self, args, race=False, timeout=1800, env=None, check=True, cwd=None):
-        b = self.build_harness(race)
+    def drv(self, args, race=False, timeout=1800, env=None, check=True, cwd=None, name=None):
+        b = self.build_harness(race, name)
         e = dict(GOENV)
         e["VERIF_SEED"] = str(self.seed)
         if env:
